@@ -5,11 +5,18 @@
    address arithmetic (C10_memory_clean_up_is_safe_for_every_range): the memory afterwards
    represents a tree with the same translations; the released frames are page-table frames of the
    hierarchy, each released once, never the level-4 table or a huge-page frame; no frame is
-   requested; nothing outside the hierarchy is written.  Partial: that the memory model releases
-   EXACTLY the tables `prune` releases (which tables overlap the range), and everything about
-   RecursivePageTable's clean-up, is tied by the correspondence check (deallocation log of every
+   requested; nothing outside the hierarchy is written.  (3) EXACTNESS, PROVED
+   (C10_memory_clean_up_is_prune, C10_whole_histories_memory_equals_tree): for every range of
+   4 KiB pages the memory model's clean_up_addr_range runs to completion, leaves table memory that
+   represents exactly the tree `prune` leaves, and hands to the deallocator exactly the frames
+   `prune` releases, in its order -- via Paging/TreeClean.v (the code's control flow and address
+   arithmetic on the tree), Paging/RefineCleanExact.v (memory = that) and Paging/CleanArith.v
+   (that = prune: the which-tables-overlap arithmetic, gap included); and whole call histories
+   with clean-ups anywhere run on the memory model exactly as on the tree model.  Partial:
+   RecursivePageTable's clean-up is tied by the correspondence check (deallocation log of every
    call, the oracle's own table bookkeeping), not proved. *)
-From X86 Require Import Paging.Mapped Paging.Tree Paging.TreeProofs Paging.Refine Paging.RefineClean.
+From X86 Require Import Addr.Canon Paging.Mapped Paging.Tree Paging.TreeProofs Paging.Refine Paging.RefineClean
+  Paging.RefineHistory Paging.RefineHistoryClean Paging.TreeClean Paging.CleanArith Paging.RefineFull.
 Require Import Permutation.
 Open Scope Z_scope.
 
@@ -62,3 +69,38 @@ Theorem C10_memory_clean_up_is_safe_for_every_range : forall s ch rs re s',
     (forall a, 0 <= a -> ~ in_frames (root s :: frames_of ch) a -> rd s' a = rd s a).
 Proof. exact clean_up_addr_range_safe. Qed.
 Print Assumptions C10_memory_clean_up_is_safe_for_every_range.
+
+(* EXACTNESS on the memory model: the tree `prune` leaves, the frames it releases, in its order *)
+Theorem C10_memory_clean_up_is_prune : forall s ch rs re,
+  rep 4 s ch (root s) -> tframe (root s) -> sep s (root s) ch -> wf_children ch ->
+  canonical rs -> canonical re -> rs mod 4096 = 0 -> re mod 4096 = 0 ->
+  exists s', clean_up_addr_range s rs re = Ok s' /\
+    rep 4 s' (fst (if re <? rs then (ch, []) else prune 4 (page_pos rs) (page_pos re) (-1) ch 0)) (root s') /\
+    sep s' (root s') (fst (if re <? rs then (ch, []) else prune 4 (page_pos rs) (page_pos re) (-1) ch 0)) /\
+    freed s' = rev (snd (if re <? rs then (ch, []) else prune 4 (page_pos rs) (page_pos re) (-1) ch 0)) ++ freed s /\
+    alloc s' = alloc s /\ nalloc s' = nalloc s /\ root s' = root s /\
+    (forall a, 0 <= a -> ~ in_frames (root s :: frames_of ch) a -> rd s' a = rd s a).
+Proof. exact clean_up_addr_range_is_prune. Qed.
+Print Assumptions C10_memory_clean_up_is_prune.
+
+(* the code-shaped clean-up on the tree (slot windows, sub-ranges by align_down / forward_checked /
+   containing_address / max / min, none of which panics) is `prune` *)
+Theorem C10_code_arithmetic_is_prune : forall ch rs re,
+  wf_children ch -> canonical rs -> canonical re -> rs mod 4096 = 0 -> re mod 4096 = 0 ->
+  t_clean_range ch rs re =
+    Ok (if re <? rs then (ch, []) else prune 4 (page_pos rs) (page_pos re) (-1) ch 0).
+Proof. exact t_clean_range_is_prune. Qed.
+Print Assumptions C10_code_arithmetic_is_prune.
+
+(* whole histories (map / unmap / update_flags / parent-flag calls and clean-ups of any page
+   range, in any order) from an empty level-4 table: the memory model never panics, answers
+   every call as the tree model does, and ends in memory representing the tree model's tree with
+   the tree model's released-frame log *)
+Theorem C10_whole_histories_memory_equals_tree : forall rootf allocs ri ops,
+  tframe rootf -> sep (init_pstate rootf allocs ri) rootf empty_children -> Forall cop_ok2 ops ->
+  exists s' ch',
+    cmem_run (init_pstate rootf allocs ri) ops = Ok (s', snd (tree_run 0 (t_init allocs) (map cop_top ops))) /\
+    fst (tree_run 0 (t_init allocs) (map cop_top ops)) = tst ch' s' (rev (freed s')) /\
+    Inv s' ch' /\ wf_children ch'.
+Proof. exact mapped_model_refines_tree_model. Qed.
+Print Assumptions C10_whole_histories_memory_equals_tree.
